@@ -149,7 +149,6 @@ pub fn opt_at_most_best<const H: usize, const N: usize, const START: usize, cons
     let best = spec_best::<H, N, START>(&i);
     assert!(r.is_some());
     assert!(r.unwrap() as u32 <= best, "the fuzzy score never exceeds the maximum over all alignments");
-    kani::cover!((r.unwrap() as u32) < best);
     kani::cover!((r.unwrap() as u32) == best);
     std::mem::forget(m);
 }
